@@ -282,7 +282,7 @@ CHECKS["C15"] = {
     "harnesses": [
         {"name": "search", "pkg": "internal/state", "pkgname": "state", "entry": "VerifC15Search",
          "files": ["zz_verif_c15.go", "zz_verif_c17.go"] + STATE_FILES, "with": ["verifdb"], "gen_stubs": [TX_STUB],
-         "params": {"quick": grid(n=[1, 2], depth=[0], sets=[0], comp=[0]) + grid(n=[2, 3], depth=[0], sets=[1], comp=[0]) + grid(n=[1], depth=[1], sets=[0], comp=[1]),
+         "params": {"quick": grid(n=[1, 2], depth=[0], sets=[0], comp=[0]) + grid(n=[2, 3], depth=[0], sets=[1], comp=[0]) + grid(n=[1], depth=[1], sets=[0], comp=[1]) + grid(n=[1, 2], depth=[2], nested=[1], comp=[2]) + grid(n=[1], depth=[0], sets=[0], comp=[0], recent=[1]),
                     "thorough": grid(n=[1, 2, 3], depth=[0], sets=[0], comp=[0]) + grid(n=[1, 2], depth=[1], sets=[0], comp=[2]) + grid(n=[2, 3, 4], depth=[0], sets=[1], comp=[0])},
          "cover": ["search-ok"]},
         {"name": "text", "pkg": "internal/state", "pkgname": "state", "entry": "VerifC15Text",
